@@ -98,7 +98,7 @@ BaseDocs(d) ==
 \* the trailing memory map: none, /proc/maps form or the brief form; two executable mappings
 \* exe = [8, 4096) and lib = [4096, 8192) (plus a non-executable one the parser must skip)
 Growth(doc) == doc.variant \in {"growthz", "growth", "fragmentationz"}
-MapForms == {"none", "procmaps", "brief", "split3"}   \* split3: the executable listed as three adjacent pieces (to be joined again)
+MapForms == {"none", "procmaps", "brief", "split3", "offsetlib"}   \* split3: the executable listed as three adjacent pieces (to be joined again); offsetlib: the library listed from its second part only, with a file offset (extended downwards to cover the addresses in front of it)
 Docs(d) == UNION { { [doc |-> b, map |-> m] : m \in (IF b.fmt = "threadz" THEN MapForms \ {"none"} ELSE IF b.fmt \in {"javaheap", "javacontention", "javacpu"} THEN {"none"} ELSE MapForms) } : b \in BaseDocs(d) }
 MapOf(form, a) == IF form = "none" THEN "fake" ELSE IF a >= 8 /\ a < 4096 THEN "exe" ELSE IF a >= 4096 /\ a < 8192 THEN "lib" ELSE "fake"
 PeriodExpected(doc) ==
